@@ -124,7 +124,14 @@ Emit == phase = "done" => EmitRecord(rec)
 TraceEvents == LoadTrace
 TInit == phase = "pick" /\ cur = 0 /\ rec = TRUE
 TPick == phase = "pick" /\ \E i \in 1..Len(TraceEvents) : cur' = i /\ phase' = "eval" /\ rec' = rec
-TEval == phase = "eval" /\ rec' = SubRec(Out(TraceEvents[cur]), TraceEvents[cur].out) /\ phase' = "done" /\ cur' = cur
+\* The signature BYTES are implementation-defined (the nonce / forged-scalar derivation is transcribed only to predict
+\* them): the property promises a signature that verifies.  Observed events are judged by that post-condition.
+Soft(ev) == IF ev.e = "WlSign" THEN { "sig" } ELSE { }
+Post(ev) == (ev.e = "WlSign" /\ ev.out.ret = 1) => SignSound(ev.in, ev.out)
+Judge(ev) == LET exp == Out(ev) IN
+  /\ \A k \in (DOMAIN exp) \ Soft(ev) : k \in DOMAIN ev.out /\ ev.out[k] = exp[k]
+  /\ Post(ev)
+TEval == phase = "eval" /\ rec' = Judge(TraceEvents[cur]) /\ phase' = "done" /\ cur' = cur
 TNext == TPick \/ TEval
 TraceOK == rec = TRUE
 =============================================================================
